@@ -265,6 +265,10 @@ func (db *DB) GarbageCollect(ctx context.Context) error {
 }
 
 func (db *DB) garbageCollectFile(key uint16, size int64) error {
+	// A deletion resolves byte offsets from the pointers and the file as they are before
+	// it takes the index lock; compacting the file in between invalidates them.
+	db.idx.deleteLock.Lock()
+	defer db.idx.deleteLock.Unlock()
 	// Atomically remove this file from the writer pool so that no writer can open
 	// on it during GC. If the file has an active writer, skip it.
 	canGC, wasUnopened := db.fc.prepareForGC(key)
